@@ -745,4 +745,40 @@ def section_supplied(problem, t):
     return False
 
 
-MONITORS = {"C04": mon_c04, "C15": mon_c15, "C03": mon_c03, "C08": mon_c08, "C10": mon_c10, "C11": mon_c11, "C12": mon_c12, "C05": mon_c05, "C06": mon_c06, "C17": mon_c17, "C13": mon_c13, "C14": mon_c14}
+# ---------------- C09 ----------------
+import hashlib as _hl
+
+
+def mon_c09(cfg, steps):
+    out = []
+    configured = None     # the channel id as supplied by the admin in the last accepted instantiate / UpdateConfig
+    for s in steps:
+        t = s.optoks
+        if t[0] == "inst" and s.res == "ok":
+            configured = unhex(t[12]).decode("utf-8", "replace")
+        if t[0] == "exec" and t[5] == "updcfg" and s.res == "ok" and not s.aborted and t[7] != "-":
+            configured = unhex(t[7][1:-1].split(";")[2]).decode("utf-8", "replace")
+        if t[0] == "fn" and s.fn:
+            if t[1] == "sha256":
+                exp = hx(_hl.sha256(unhex(t[2])).digest())
+                if s.fn[0] != exp:
+                    out.append({"step": s.idx, "what": "sha256 of a %d-byte message differs from the reference" % len(unhex(t[2]))})
+            elif t[1] == "derive":
+                ch = unhex(t[2]).decode("utf-8", "replace"); snd = unhex(t[3]).decode("utf-8", "replace"); pf = unhex(t[4]).decode("utf-8", "replace")
+                ok = 1 <= len(pf.encode()) <= 83 and all(33 <= b <= 126 for b in pf.encode()) and not (any("a" <= c <= "z" for c in pf) and any("A" <= c <= "Z" for c in pf))
+                exp = hx(b32.hook_sender(ch, snd, pf.lower())) if ok else "-"
+                if s.fn[0] != exp:
+                    out.append({"step": s.idx, "what": "derive(%r, %r, %r) = %s, ibc-hooks derivation gives %s" % (ch, snd, pf, s.fn[0], exp)})
+        if t[0] == "exec" and s.pre is not None and t[5] in ("rewards", "unstaked"):
+            who = unhex(t[3]).decode("utf-8", "replace"); pre = s.pre
+            native = pre["native"]["collector"] if t[5] == "rewards" else pre["native"]["staker"]
+            chan = configured if configured is not None else pre["protocol"]["channel"]
+            hook = b32.hook_sender(chan, native, pre["protocol"]["prefix"])
+            if s.res == "ok" and who != hook:
+                out.append({"step": s.idx, "what": "%s accepted sender %s; the ibc-hooks account of the configured (%s, %s) is %s" % (t[5], who, chan, native, hook)})
+            if s.res == "err" and who == hook and not pre["stopped"] and s.pre["protocol"]["channel"] != chan:
+                out.append({"step": s.idx, "what": "%s refused the ibc-hooks account of the configured channel %s (stored channel %s)" % (t[5], chan, s.pre["protocol"]["channel"])})
+    return out
+
+
+MONITORS = {"C04": mon_c04, "C15": mon_c15, "C03": mon_c03, "C08": mon_c08, "C10": mon_c10, "C11": mon_c11, "C12": mon_c12, "C05": mon_c05, "C06": mon_c06, "C17": mon_c17, "C13": mon_c13, "C14": mon_c14, "C09": mon_c09}
